@@ -182,7 +182,8 @@ def close_floats(ctx):
     from deepdiff import DeepDiff
     import datetime as _dtm
     tz = lambda h: _dtm.timezone(_dtm.timedelta(hours=h))
-    pairs = [(b'caf\xe9', b'caf\xc3\xa9'), (b'\x80', b'\xc2\x80'), (b'a\xff', b'a\xc3\xbf'), (b'l1\n\xe9', b'l1\n\xc3\xa9'),
+    pairs = [('caf\u00e9', 'cafe\u0301'), ('\u03a9', '\u2126'), ('\u00c5', '\u212b'), ('\uac00', '\u1100\u1161'), ('caf\u00e9'.encode(), 'cafe\u0301'.encode()), ('\ufb01', 'fi'), ('a\u00e9\nb', 'ae\u0301\nb'),
+             (b'caf\xe9', b'caf\xc3\xa9'), (b'\x80', b'\xc2\x80'), (b'a\xff', b'a\xc3\xbf'), (b'l1\n\xe9', b'l1\n\xc3\xa9'),
              (_dtm.time(12, 0, tzinfo=tz(0)), _dtm.time(12, 0, tzinfo=tz(5))), (_dtm.time(12, 0, tzinfo=tz(0)), _dtm.time(12, 0)), (_dtm.time(1, 2, 3, tzinfo=tz(-8)), _dtm.time(1, 2, 3, tzinfo=tz(9))),
              (0.1, math.nextafter(0.1, 1)), (1.0, math.nextafter(1.0, 2)), (1.0, math.nextafter(1.0, 0)), (1e-20, 2e-20), (0.0, 5e-324), (5e-324, 1e-323), (1e-300, -1e-300),
              (1e16, 1e16 + 2), (-2.5, math.nextafter(-2.5, 0)), (1e-17, 0.0), (3.0000000000000004, 3.0), (123456.789, math.nextafter(123456.789, 0))]
